@@ -152,3 +152,7 @@ func (r *vfxRemote) run(services wire.ServiceFlag, height int32) {
 		r.mu.Unlock()
 	}
 }
+
+// vfxInBurst switches the in-burst deviations (DESIGN 3.7) of the root
+// package's component harnesses on: the second configuration of each.
+var vfxInBurst bool
